@@ -250,10 +250,12 @@ impl ToZinc for Uri {
 
 impl ToZinc for XStr {
     fn to_zinc<W: std::io::Write>(&self, writer: &mut W) -> Result<()> {
+        let mut chars = self.r#type.chars();
+        let first = chars.next().map(|c| c.to_uppercase().to_string());
         writer.write_fmt(format_args!(
             "{}{}(\"{}\")",
-            self.r#type[0..1].to_uppercase(),
-            &self.r#type[1..],
+            first.unwrap_or_default(),
+            chars.as_str(),
             self.value
         ))?;
         Ok(())
